@@ -203,6 +203,9 @@ class cpr_drs {
             }
         }
 
+#ifdef AMGCL_VERIF
+    friend struct ::amgcl::verif::access;
+#endif
     private:
         size_t n, np;
 
